@@ -11,6 +11,7 @@ import CfbVerif.Phys.NoLeak
 import CfbVerif.Phys.NoLeakMini
 import CfbVerif.Phys.Marks
 import CfbVerif.Phys.ChainLen
+import CfbVerif.Phys.LogRange
 /-!
 # C03 — every produced image is a well-formed MS-CFB file by an independent checker
 
@@ -310,6 +311,17 @@ theorem C03_chain_length_matches_size (v4 : Bool) (ops : List GOp) :
   have hne' : start ≠ END := hne
   show (decide (CUTOFF ≤ g.L slot) && (start != END)) = true
   simp [hc, hne']
+
+/-- **a stream handle's calls keep that state**: in every state that satisfies the handle invariant
+(C06), every write the call issues starts at or before the end of the stream, and its store
+operations — replayed on the allocation level from the stream's length — keep no-sharing, no-leak,
+whole sectors and the chain lengths; the stream's new length is the length of the content the
+handle model computes -/
+theorem C03_handle_call_keeps_chain_lengths (h : Handle.H) (st : Handle.Bytes) (hi : Handle.Inv h st) (op : Handle.DOp)
+    {p p' : P} {L : Nat → Nat} {slot : Nat} (hL : L slot = st.length)
+    (ha : applyLogPhys p slot (L slot) (stepDL h st op) = .ok p') (j : JR p L) (hb : p'.fat.size ≤ MAXREG + 1) :
+    LogInRange st.length (stepDL h st op) ∧ JR p' (upd L slot (Handle.stepD h st op).2.1.length) :=
+  ⟨stepDL_inRange h st hi op, jr_handleCall h st hi op hL ha j hb⟩
 
 /-- **every sector of the file is a whole sector**, after every history of API calls -/
 theorem C03_sectors_whole (v4 : Bool) (maxBuf : Nat) (ops : List Dir.HOp) :
